@@ -3,6 +3,9 @@ import itertools
 
 from framework import Failure
 import tiers as T
+import tierops
+import tgops
+import dispatch
 
 RULE = ("exhaustive family: every tier of <=3 (quick: sampled; thorough: all, <=4) disjoint intervals with integer "
         "boundaries in [0,6] (touching allowed) x every window a<b on the half-integer grid in [0,6.5] plus a==b, a==b+0.5 "
@@ -28,22 +31,9 @@ def wants_x(c):
     return c.get("grid", False)
 
 
-def encode(c, enc):
-    if c["op"] == "icrop":
-        return f"icrop {T.enc_spec(enc, c['tier'])} {enc.time(c['a'])} {enc.time(c['b'])} {c['mode']} {enc.b(c['rebase'])}"
-    return f"pcrop {T.enc_spec(enc, c['tier'])} {enc.time(c['a'])} {enc.time(c['b'])} {enc.b(c['rebase'])}"
-
-
-def impl(c):
-    t = T.build(c["tier"])
-    r = T.call(lambda: t.crop(c["a"], c["b"], c["mode"], c["rebase"]))
-    if r[0] == "ok":
-        return ("ok", T.snap(r[1]))
-    return r
-
-
-def render(c, r, enc):
-    return T.render_tier_result(enc, r)
+encode = dispatch.encode
+impl = dispatch.impl
+render = dispatch.render
 
 
 def expected(c):
@@ -77,6 +67,8 @@ def expected(c):
 
 
 def oracle(c, r):
+    if dispatch.is_tg(c):
+        return tgops.oracle(c, r)
     exp = expected(c)
     op = c["op"]
     if exp[0] == "err":
@@ -104,6 +96,8 @@ def oracle(c, r):
 
 
 def tags(c, r):
+    if dispatch.is_tg(c):
+        return [c['op'], 'grid' if c.get('grid') else 'dec'] + (['err:' + r[1]] if r[0] == 'err' else [])
     out = [c["op"], "mode:" + str(c.get("mode")), "rebase:" + str(c["rebase"]), "grid" if c.get("grid") else "dec"]
     if r[0] == "err":
         out.append("err:" + r[1])
@@ -115,6 +109,8 @@ def tags(c, r):
 
 
 def nontrivial(c, r):
+    if dispatch.is_tg(c):
+        return any(t['es'] for t in c['tg']['tiers'])
     return r[0] == "err" or len(r[1]["es"]) > 0
 
 
@@ -158,6 +154,25 @@ def corpus():
 
 
 def gen(rnd, tier):
+    yield from gen_tier_level(rnd, tier)
+    for i in range(20000 if tier == 'thorough' else 1500):
+        domain = rnd.choice(['dec', 'dec', 'grid64'])
+        c = tg_case(rnd, domain)
+        c['grid'] = domain != 'dec'
+        yield c
+
+
+def tg_case(rnd, domain):
+    g = tgops.gen_tg(rnd, domain, valid=rnd.random() < 0.8)
+    pool = sorted({x for t in g['tiers'] for x in T.boundary_pool(t, rnd, domain)})
+    pool = [x for x in pool if 0 <= x <= g['hi']]
+    a, b = rnd.choice(pool), rnd.choice(pool)
+    if a > b and rnd.random() < 0.95:
+        a, b = b, a
+    return {'op': 'tg_crop', 'tg': g, 'a': a, 'b': b, 'mode': rnd.choice(MODES), 'rebase': rnd.random() < 0.5}
+
+
+def gen_tier_level(rnd, tier):
     if tier == "thorough":
         allc = list(family_cases(3))
         for c in allc:
@@ -194,9 +209,7 @@ def gen(rnd, tier):
                    "grid": domain != "dec"}
 
 
-def shrink(c):
-    for s in T.shrink_spec(c["tier"]):
-        yield dict(c, tier=s)
+shrink = dispatch.shrink
 
 
 def perturb(c, rnd):
